@@ -34,20 +34,18 @@ async def stdio_client_with_initialize(
     preferred_version=None,
 ):
     """Compatibility wrapper for stdio_client_with_initialize."""
-    from ..protocol.messages.initialize import send_initialize
+    from ..transports.stdio.stdio_client import (
+        stdio_client_with_initialize as _stdio_client_with_initialize,
+    )
 
-    async with stdio_client(server_params) as (read_stream, write_stream):
-        # Perform initialization
-        init_result = await send_initialize(
-            read_stream,
-            write_stream,
-            timeout=timeout,
-            supported_versions=supported_versions,
-            preferred_version=preferred_version,
-        )
-        if not init_result:
-            raise Exception("Initialization failed")
-
+    # Delegate to the tracked handshake so the connection learns the agreed
+    # version (a plain send_initialize left it accepting batches at 2025-06-18)
+    async with _stdio_client_with_initialize(
+        server_params,
+        timeout=timeout,
+        supported_versions=supported_versions,
+        preferred_version=preferred_version,
+    ) as (read_stream, write_stream, init_result):
         # Yield streams and init result (old API format)
         yield read_stream, write_stream, init_result
 
